@@ -458,23 +458,8 @@ func findPendingCmdByType[T command](c *Client) T {
 }
 
 func (c *Client) completeCommand(cmd command, err error) {
-	done := cmd.base().done
-	done <- err
-	close(done)
-
-	// Ensure the command is not blocked waiting on continuation requests
-	c.mutex.Lock()
-	var filtered []continuationRequest
-	for _, contReq := range c.contReqs {
-		if contReq.cmd != cmd.base() {
-			filtered = append(filtered, contReq)
-		} else {
-			contReq.Cancel(err)
-		}
-	}
-	c.contReqs = filtered
-	c.mutex.Unlock()
-
+	// Update the connection state before signalling the completion: once Wait
+	// has returned, State and Mailbox must reflect the outcome of the command
 	switch cmd := cmd.(type) {
 	case *authenticateCommand, *loginCommand:
 		if err == nil {
@@ -508,6 +493,26 @@ func (c *Client) completeCommand(cmd command, err error) {
 		if err == nil {
 			c.setState(imap.ConnStateLogout)
 		}
+	}
+
+	done := cmd.base().done
+	done <- err
+	close(done)
+
+	// Ensure the command is not blocked waiting on continuation requests
+	c.mutex.Lock()
+	var filtered []continuationRequest
+	for _, contReq := range c.contReqs {
+		if contReq.cmd != cmd.base() {
+			filtered = append(filtered, contReq)
+		} else {
+			contReq.Cancel(err)
+		}
+	}
+	c.contReqs = filtered
+	c.mutex.Unlock()
+
+	switch cmd := cmd.(type) {
 	case *ListCommand:
 		if cmd.pendingData != nil {
 			cmd.mailboxes <- cmd.pendingData
@@ -762,18 +767,20 @@ func (c *Client) readResponseTagged(tag, typ string) (startTLS *startTLSCommand,
 		return nil, fmt.Errorf("in response: %v", c.dec.Err())
 	}
 
+	if cmdErr == nil && code != "CAPABILITY" {
+		switch cmd.(type) {
+		case *startTLSCommand, *loginCommand, *authenticateCommand, *unauthenticateCommand:
+			// These commands invalidate the capabilities. Do it before the
+			// command completes, so that Caps doesn't return the stale
+			// capabilities once Wait has returned.
+			c.setCaps(nil)
+		}
+	}
+
 	c.completeCommand(cmd, cmdErr)
 
 	if cmd, ok := cmd.(*startTLSCommand); ok && cmdErr == nil {
 		startTLS = cmd
-	}
-
-	if cmdErr == nil && code != "CAPABILITY" {
-		switch cmd.(type) {
-		case *startTLSCommand, *loginCommand, *authenticateCommand, *unauthenticateCommand:
-			// These commands invalidate the capabilities
-			c.setCaps(nil)
-		}
 	}
 
 	return startTLS, nil
